@@ -190,8 +190,9 @@ def run(ctx):
                           loc=c.loc, construct="flag")
                 else:
                     r.ok("recv|%d" % i, "recv → is_quit_now → Some(work)", fn=f)
-            c0 = f.calls_to(WK + "::is_quit_now")[0]
-            s = seed_after_call(f, c0, I(1), stop_blocks={h for _, h in C.back_edges(f)})
+            # with the flag up — whenever it is read — nothing but None comes out (the flag may be read in a helper that
+            # classifies what was received, before the loop or in it)
+            s = Sccp(f, call_model=lambda c_, argv: I(1) if c_.is_(WK + "::is_quit_now") else None).run([(0, {})])
             vals = {x for v in s.ret_values.values() for x in value_set(v)}
             if vals == {V("None", None)}:
                 r.ok("quit-now", "quit flag set ⇒ whatever was received is treated as Quit (returns None)", fn=f)
